@@ -1,6 +1,7 @@
 (* C05 — Earliest admissible occurrence: no missed run, filters honoured (statements only). *)
 From EAS Require Import Base Civil Time TimeFacts Filters Replace Producers ProdStrict ProdEarliest.
 From EAS Require Import TimeOrder ProdEarliest2 ProdGroup.
+From EAS Require Import ProdComplete ProdComplete2 ProdComplete3.
 From EASGen Require Import Generated.
 
 (* interval: the answer is the EARLIEST point of the grid (through the cached point / start) that lies after
@@ -114,3 +115,234 @@ Theorem C05_tig_chain_enumerates :
   forall n st dt, cache_on_grid G st -> enumerates (occ (pz E) p) dt (chain E p st dt n).
 Proof. exact tig_chain_enumerates. Qed.
 Print Assumptions C05_tig_chain_enumerates.
+
+(* ---- the tie to the source by translation: coq/gen/GenProd.v is regenerated from src/eascheduler/producers/*.py and
+   helpers/time_replace.py on every run (tools/gen_prod.py); these theorems are re-checked against it.  [pknot E n] is
+   the generated code closed by dispatch on the class of the object; [lift] reads a model answer as an outcome of the
+   generated code (value + producer state / exception / out of fuel). *)
+From EAS Require GenRtProd GenProdEq.
+Theorem C05_generated_source_recognised : EASGen.GenProd.gen_prod_status_v = EASGen.GenProd.GenProdOk.
+Proof. exact GenProdEq.gen_prod_recognised. Qed.
+Print Assumptions C05_generated_source_recognised.
+(* the generated code answers v (leaving state st') exactly when the model does: every C05 statement about
+   get_next's answers (time of day, interval, group, nested) is a statement about the generated code *)
+Theorem C05_generated_answer_iff : forall E n p dt st st' v, wf_producer p -> (GenProdEq.rank p <= n)%nat ->
+  (GenRtProd.r_get_next (GenProdEq.pknot E n) p dt st = Some (st', GenRtProd.PRet v) <-> get_next E p st dt = (Ok v, st')).
+Proof. exact GenProdEq.gen_answer_iff. Qed.
+Print Assumptions C05_generated_answer_iff.
+(* IntervalProducer.get_next as generated, with ANY fuel for its two `while` loops and any callee computing the
+   filter: an answer is the earliest admissible point after dt of the grid through the cell / start, and the cell
+   holds it afterwards *)
+Theorem C05_generated_interval_earliest : forall E R fuel id start iv f dt st g st',
+  0 < iv -> GenProdEq.allow_ok E R f ->
+  EASGen.GenProd.g_interval_get_next E R fuel id start iv f dt st = Some (st', GenRtProd.PRet g) ->
+  let c := GenProdEq.start_point id start dt st in
+  dt < g /\ on_grid c iv g /\ allow_opt (pz E) f g = true /\
+  (forall u, dt < u < g -> on_grid c iv u -> allow_opt (pz E) f u = false) /\
+  GenRtProd.cell_get id start st' = Some g.
+Proof. exact GenProdEq.gen_interval_earliest. Qed.
+Print Assumptions C05_generated_interval_earliest.
+(* the two `while` loops are the closed forms of the model: exact equation for the fuel the walks need *)
+Theorem C05_generated_interval_is_model : forall E R fuel id start iv f dt st,
+  0 < iv -> GenProdEq.allow_ok E R f ->
+  let c := GenProdEq.start_point id start dt st in
+  (GenProdEq.back_steps c iv dt < fuel 1%nat)%nat ->
+  fuel 2%nat = (GenProdEq.fwd_steps (interval_back c iv dt) iv dt + Pos.to_nat (interval_fuel E))%nat ->
+  EASGen.GenProd.g_interval_get_next E R fuel id start iv f dt st = GenRtProd.lift (get_next E (PInterval id start iv f) st dt).
+Proof. exact GenProdEq.gen_interval_get_next_eq. Qed.
+Print Assumptions C05_generated_interval_is_model.
+(* GroupProducer.get_next and TimeProducer.get_next as generated, for any callees that compute the model *)
+Theorem C05_generated_group_is_model : forall E R fuel ps f dt st,
+  (forall q, In q ps -> forall x s, GenRtProd.r_get_next R q x s = GenRtProd.lift (get_next E q s x)) ->
+  GenProdEq.allow_ok E R f ->
+  EASGen.GenProd.g_group_get_next E R fuel ps f dt st = GenRtProd.lift (get_next E (PGroup ps f) st dt).
+Proof. exact GenProdEq.gen_group_get_next_eq. Qed.
+Print Assumptions C05_generated_group_is_model.
+Theorem C05_generated_time_is_model : forall E R fuel tr f dt st,
+  (forall tr day s, GenRtProd.r_replace R tr day s = Some (s, GenRtProd.of_rres (replace (pz E) tr day))) ->
+  GenProdEq.allow_ok E R f ->
+  EASGen.GenProd.g_time_get_next E R fuel tr f dt st = GenRtProd.lift (get_next E (PTime tr f) st dt).
+Proof. exact GenProdEq.gen_time_get_next_eq. Qed.
+Print Assumptions C05_generated_time_is_model.
+
+(* ---- completeness (ProdComplete*.v): when the search gives up, and three refuted forms ---- *)
+
+(* ---- COMPLETENESS additions to props/C05.v; needs in the header:
+   From EAS Require Import ProdComplete ProdComplete2 ProdComplete3.   (after the existing imports) ---- *)
+
+(* time of day: the answer of TimeProducer.get_next, exactly.  The walk visits the 99 999 local days
+   walk_start = (local day of dt) - 1 .. walk_start + 99 998; it answers Ok with the first admissible occurrence of
+   the first such day that has one, or raises the error of [replace] met before, or InfiniteLoopDetectedError when
+   every day of the horizon is quiet. *)
+Theorem C05_time_walk_cases :
+  forall z tr f dt,
+  (exists day v, in_horizon z dt day /\ (forall x, walk_start z dt <= x < day -> quiet z tr f dt x) /\
+                 first_adm z f dt (day_results z tr day) v /\ next_time z tr f dt = Ok v) \/
+  (exists day e, in_horizon z dt day /\ (forall x, walk_start z dt <= x < day -> quiet z tr f dt x) /\
+                 replace z tr day = RExn e /\ next_time z tr f dt = Raise e) \/
+  ((forall x, in_horizon z dt x -> quiet z tr f dt x) /\ next_time z tr f dt = Raise EInfiniteLoop).
+Proof. exact time_walk_cases. Qed.
+Print Assumptions C05_time_walk_cases.
+
+(* COMPLETENESS, time of day: an admissible occurrence on a day of the horizon is not given up on *)
+Theorem C05_time_complete :
+  forall z tr f dt d u,
+    wf_tz_b z = true -> wf_tr tr ->
+    in_horizon z dt d -> In u (day_results z tr d) -> dt < u -> allow_opt z f u = true ->
+    (forall d' e, walk_start z dt <= d' < d -> replace z tr d' <> RExn e) ->
+    exists v, next_time z tr f dt = Ok v /\ earliest_after (occ_time z tr f) dt v /\ v <= u.
+Proof. exact time_complete_earliest. Qed.
+Print Assumptions C05_time_complete.
+
+Theorem C05_time_infinite_loop_iff :
+  forall z tr f dt,
+    next_time z tr f dt = Raise EInfiniteLoop <-> forall x, in_horizon z dt x -> quiet z tr f dt x.
+Proof. exact time_infinite_loop_iff. Qed.
+Print Assumptions C05_time_infinite_loop_iff.
+
+(* the horizon is exact: an admissible occurrence on the day after it is missed *)
+Theorem C05_time_horizon_tight_refuted :
+  ~ (forall z tr f dt d u,
+       walk_start z dt <= d <= walk_start z dt + LBZ -> In u (day_results z tr d) -> dt < u ->
+       allow_opt z f u = true -> no_exn z tr -> exists v, next_time z tr f dt = Ok v).
+Proof. exact time_horizon_tight_refuted. Qed.
+Print Assumptions C05_time_horizon_tight_refuted.
+
+(* the hypothesis on [replace] cannot be dropped: policy 'after' with a gap longer than 121 minutes raises
+   ValueError out of get_next although later days have the occurrence (candidate finding, replayed) *)
+Theorem C05_time_complete_without_no_exn_refuted :
+  ~ (forall z tr f dt d u,
+       wf_tz_b z = true -> wf_tr tr -> in_horizon z dt d -> In u (day_results z tr d) -> dt < u ->
+       allow_opt z f u = true -> exists v, next_time z tr f dt = Ok v).
+Proof. exact time_complete_without_no_exn_refuted. Qed.
+Print Assumptions C05_time_complete_without_no_exn_refuted.
+
+(* when [replace] cannot raise *)
+Theorem C05_replace_no_exn :
+  forall z tr, tz_ascending z = true -> tr_sk tr <> SkAfter -> no_exn z tr.
+Proof. exact replace_no_exn. Qed.
+Print Assumptions C05_replace_no_exn.
+
+(* no filter: never starves unless the policy is 'skip'; found not later than two local days ahead *)
+Theorem C05_time_nofilter_never_starves :
+  forall z tr dt,
+    wf_tz_b z = true -> wf_tr tr -> tr_sk tr <> SkSkip -> tr_rp tr <> RpSkip -> no_exn z tr ->
+    exists v, next_time z tr None dt = Ok v /\ earliest_after (occ_day z tr) dt v /\
+              forall u, In u (day_results z tr (local_day (to_local z dt) + 2)) -> v <= u.
+Proof. exact time_nofilter_never_starves. Qed.
+Print Assumptions C05_time_nofilter_never_starves.
+
+Theorem C05_time_nofilter_never_starves_el :
+  forall z tr dt,
+    wf_tz_b z = true -> wf_tr tr -> tr_sk tr = SkEarlier \/ tr_sk tr = SkLater -> tr_rp tr <> RpSkip ->
+    exists v, next_time z tr None dt = Ok v /\ earliest_after (occ_day z tr) dt v.
+Proof. exact time_nofilter_never_starves_el. Qed.
+Print Assumptions C05_time_nofilter_never_starves_el.
+
+(* which policy / table combinations can starve an unfiltered trigger *)
+Theorem C05_time_nofilter_starves_only_if :
+  forall z tr dt,
+    wf_tz_b z = true -> wf_tr tr -> next_time z tr None dt = Raise EInfiniteLoop ->
+    forall d, local_day (to_local z dt) + 2 <= d < walk_start z dt + LBZ -> replace z tr d = RSkip.
+Proof. exact time_nofilter_starves_only_if. Qed.
+Print Assumptions C05_time_nofilter_starves_only_if.
+
+(* COMPLETENESS, interval: fuel n = the budget of the (in the code unbounded) filter search *)
+Theorem C05_interval_complete :
+  forall z fuel c iv f dt u,
+    0 < iv -> on_grid c iv u -> dt < u -> u < ifirst c iv dt + Z.pos fuel * iv -> allow_opt z f u = true ->
+    exists g, next_interval z fuel c iv f dt = Ok g /\ g <= u /\
+              dt < g /\ on_grid c iv g /\ allow_opt z f g = true /\
+              forall w, dt < w < g -> on_grid c iv w -> allow_opt z f w = false.
+Proof. exact interval_complete. Qed.
+Print Assumptions C05_interval_complete.
+
+Theorem C05_interval_out_of_fuel_iff :
+  forall z fuel c iv f dt,
+    next_interval z fuel c iv f dt = OutOfFuel <->
+    forall k, 0 <= k < Z.pos fuel -> allow_opt z f (ifirst c iv dt + k * iv) = false.
+Proof. exact interval_out_of_fuel_iff. Qed.
+Print Assumptions C05_interval_out_of_fuel_iff.
+
+Theorem C05_interval_complete_get_next :
+  forall E id start iv f st dt u,
+    0 < iv -> on_grid (icell id start st dt) iv u ->
+    dt < u <= dt + Z.pos (interval_fuel E) * iv -> allow_opt (pz E) f u = true ->
+    exists g, get_next E (PInterval id start iv f) st dt = (Ok g, with_icache (iset id g (icache st)) st) /\ g <= u.
+Proof. exact interval_complete_get_next. Qed.
+Print Assumptions C05_interval_complete_get_next.
+
+(* COMPLETENESS, group: generic members *)
+Theorem C05_group_complete :
+  forall E (Inv : pstate -> Prop) (P : producer -> Z -> Prop) ps f dt u (L : list Z),
+    (forall q, In q ps -> member_ok E Inv (P q) q) ->
+    (forall q, In q ps -> forall x, dt <= x < u -> live_at E Inv q x) ->
+    union_occ P ps u -> allow_opt (pz E) f u = true -> dt < u ->
+    (forall w, union_occ P ps w -> dt < w <= u -> In w L) -> Z.of_nat (length L) <= LBZ ->
+    forall st, Inv st ->
+    exists v st', get_next E (PGroup ps f) st dt = (Ok v, st') /\ Inv st' /\ v <= u /\
+      earliest_after (fun w => union_occ P ps w /\ allow_opt (pz E) f w = true) dt v.
+Proof. exact group_complete. Qed.
+Print Assumptions C05_group_complete.
+
+(* groups of time-of-day / interval / group members *)
+Theorem C05_group_complete_tig :
+  forall E G ps f st dt u,
+    wf_tz_b (pz E) = true -> consistent G ->
+    tig (PGroup ps f) -> incl (leaves (PGroup ps f)) G -> cache_on_grid G st ->
+    (forall q, In q ps -> forall x, dt <= x < u -> live_at E (cache_on_grid G) q x) ->
+    occ (pz E) (PGroup ps f) u -> dt < u ->
+    Z.of_nat (length (cover (pz E) dt u (PGroup ps f))) <= LBZ ->
+    exists v st', get_next E (PGroup ps f) st dt = (Ok v, st') /\ cache_on_grid G st' /\ v <= u /\
+      earliest_after (occ (pz E) (PGroup ps f)) dt v.
+Proof. exact group_complete_tig. Qed.
+Print Assumptions C05_group_complete_tig.
+
+Theorem C05_cover_spec :
+  forall z dt u, spread z <= 4 * 3600 ->
+  forall p, tig p -> forall w, occ z p w -> dt < w <= u -> In w (cover z dt u p).
+Proof. exact cover_spec. Qed.
+Print Assumptions C05_cover_spec.
+
+(* the two side conditions cannot be dropped (candidate findings, replayed on the implementation) *)
+Theorem C05_group_complete_without_count_refuted :
+  ~ (forall E ps f dt u,
+       wf_tz_b (pz E) = true -> tig (PGroup ps f) -> consistent (leaves (PGroup ps f)) ->
+       (forall q, In q ps -> forall x, dt <= x < u -> live_at E (cache_on_grid (leaves (PGroup ps f))) q x) ->
+       occ (pz E) (PGroup ps f) u -> dt < u ->
+       exists v st', get_next E (PGroup ps f) pstate0 dt = (Ok v, st')).
+Proof. exact group_complete_without_count_refuted. Qed.
+Print Assumptions C05_group_complete_without_count_refuted.
+
+Theorem C05_group_complete_without_live_members_refuted :
+  ~ (forall E ps f dt u,
+       wf_tz_b (pz E) = true -> tig (PGroup ps f) -> consistent (leaves (PGroup ps f)) ->
+       occ (pz E) (PGroup ps f) u -> dt < u ->
+       Z.of_nat (length (cover (pz E) dt u (PGroup ps f))) <= LBZ ->
+       exists v st', get_next E (PGroup ps f) pstate0 dt = (Ok v, st')).
+Proof. exact group_complete_without_live_members_refuted. Qed.
+Print Assumptions C05_group_complete_without_live_members_refuted.
+
+(* chains: a time-of-day trigger followed from its own answers never starves *)
+Theorem C05_time_chain_never_starves :
+  forall E tr f dt,
+    no_exn (pz E) tr -> (forall x, dt <= x -> window_ok (pz E) tr f x) ->
+    forall n st, all_ok (chain E (PTime tr f) st dt n) /\ length (chain E (PTime tr f) st dt n) = n.
+Proof. exact time_chain_never_starves. Qed.
+Print Assumptions C05_time_chain_never_starves.
+
+(* PARTIAL (syntactic condition only for reference instants not before the last transition of the table; full
+   statement: the same for every dt when the table has fewer transitions than accepted days in each window):
+   a date-only filter that accepts a day in every run of W <= 99 996 days *)
+Theorem C05_time_chain_never_starves_dates_partial :
+  forall E T tr g W dt,
+    wf_tz_b (pz E) = true -> wf_tr tr -> no_exn (pz E) tr -> calm_from (pz E) T = true -> T <= dt ->
+    day_only g -> day_window g W -> W + 3 <= LBZ ->
+    forall n st, all_ok (chain E (PTime tr (Some g)) st dt n) /\ length (chain E (PTime tr (Some g)) st dt n) = n.
+Proof. exact time_chain_never_starves_dates. Qed.
+Print Assumptions C05_time_chain_never_starves_dates_partial.
+
+Theorem C05_weekday_window :
+  forall s wd, In wd s -> 1 <= wd <= 7 -> day_window (FWeekday s) 7.
+Proof. exact weekday_window. Qed.
+Print Assumptions C05_weekday_window.
